@@ -35,14 +35,12 @@ example : lagSum (K := ℚ) ![1, 2, 4] (fun i => (X ^ 2 + C 7 : ℚ[X]).eval (![
     rw [this]; decide)]
   simp
 
-private theorem ne_of_inj {k : ℕ} (xs : Fin k → K) (hinj : Function.Injective xs) (i j : Fin k) (h : i ≠ j) :
-    xs i - xs j ≠ 0 := sub_ne_zero.mpr (fun e => h (hinj e))
 
 /-- the generated 2-point formula (`linear_extrap` of Numerics.py) IS the canonical Lagrange value at 0 -/
 theorem C07_form_2 (xs ys : Fin 2 → K) (hinj : Function.Injective xs) :
     linear_extrap (ys 0) (ys 1) (xs 0) (xs 1) = lagSum xs ys := by
   have _present := @linear_extrap K   -- stops here at once if the formula is missing from the source
-  have hne := ne_of_inj xs hinj
+  have hne := sub_ne_zero_of_injective xs hinj
   have h01 := hne 0 1 (by decide)
   have h10 := hne 1 0 (by decide)
   rw [lagSum_expand]
@@ -56,7 +54,7 @@ theorem C07_form_2 (xs ys : Fin 2 → K) (hinj : Function.Injective xs) :
 theorem C07_form_3 (xs ys : Fin 3 → K) (hinj : Function.Injective xs) :
     quadratic_extrap (ys 0) (ys 1) (ys 2) (xs 0) (xs 1) (xs 2) = lagSum xs ys := by
   have _present := @quadratic_extrap K   -- stops here at once if the formula is missing from the source
-  have hne := ne_of_inj xs hinj
+  have hne := sub_ne_zero_of_injective xs hinj
   have h01 := hne 0 1 (by decide)
   have h02 := hne 0 2 (by decide)
   have h10 := hne 1 0 (by decide)
@@ -74,7 +72,7 @@ theorem C07_form_3 (xs ys : Fin 3 → K) (hinj : Function.Injective xs) :
 theorem C07_form_4 (xs ys : Fin 4 → K) (hinj : Function.Injective xs) :
     cubic_extrap (ys 0) (ys 1) (ys 2) (ys 3) (xs 0) (xs 1) (xs 2) (xs 3) = lagSum xs ys := by
   have _present := @cubic_extrap K   -- stops here at once if the formula is missing from the source
-  have hne := ne_of_inj xs hinj
+  have hne := sub_ne_zero_of_injective xs hinj
   have h01 := hne 0 1 (by decide)
   have h02 := hne 0 2 (by decide)
   have h03 := hne 0 3 (by decide)
@@ -98,7 +96,7 @@ theorem C07_form_4 (xs ys : Fin 4 → K) (hinj : Function.Injective xs) :
 theorem C07_form_5 (xs ys : Fin 5 → K) (hinj : Function.Injective xs) :
     quartic_extrap (ys 0) (ys 1) (ys 2) (ys 3) (ys 4) (xs 0) (xs 1) (xs 2) (xs 3) (xs 4) = lagSum xs ys := by
   have _present := @quartic_extrap K   -- stops here at once if the formula is missing from the source
-  have hne := ne_of_inj xs hinj
+  have hne := sub_ne_zero_of_injective xs hinj
   have h01 := hne 0 1 (by decide)
   have h02 := hne 0 2 (by decide)
   have h03 := hne 0 3 (by decide)
@@ -130,7 +128,7 @@ theorem C07_form_5 (xs ys : Fin 5 → K) (hinj : Function.Injective xs) :
 theorem C07_form_6 (xs ys : Fin 6 → K) (hinj : Function.Injective xs) :
     quintic_extrap (ys 0) (ys 1) (ys 2) (ys 3) (ys 4) (ys 5) (xs 0) (xs 1) (xs 2) (xs 3) (xs 4) (xs 5) = lagSum xs ys := by
   have _present := @quintic_extrap K   -- stops here at once if the formula is missing from the source
-  have hne := ne_of_inj xs hinj
+  have hne := sub_ne_zero_of_injective xs hinj
   have h01 := hne 0 1 (by decide)
   have h02 := hne 0 2 (by decide)
   have h03 := hne 0 3 (by decide)
